@@ -57,6 +57,13 @@ static void* joiner_prog(void* param) {
   return (void*)(intptr_t)((rc == FIBER_SUCCESS && res == (void*)(intptr_t)5) || rc == FIBER_ERROR ? 1 : 2);
 }
 
+/* op 26: two fibers blocked in read() on the SAME descriptor, woken by data arriving */
+static void* reader_prog(void* param) {
+  char b = 0;
+  ssize_t n = read((int)(intptr_t)param, &b, 1);
+  return (void*)(intptr_t)(n == 1 ? 1 : 2);
+}
+
 static void* fiber_prog(void* param) {
   int f = (int)(intptr_t)param;
   int held[2] = {0, 0};
@@ -141,6 +148,24 @@ static void* fiber_prog(void* param) {
         for (long y = 0; y < 1 + a; y++) fiber_yield();
         fiber_detach(c);
         if (fiber_join(j, &jr) != FIBER_SUCCESS || jr != (void*)(intptr_t)1) r = 79;
+        break;
+      }
+      case 26: {
+        int sv[2];
+        if (held[0] || held[1]) break;
+        if (socketpair(AF_UNIX, SOCK_STREAM, 0, sv) == 0) {
+          fiber_t* r1 = fiber_create(20000, &reader_prog, (void*)(intptr_t)sv[0]);
+          fiber_t* r2 = fiber_create(20000, &reader_prog, (void*)(intptr_t)sv[0]);
+          void *x1 = NULL, *x2 = NULL;
+          for (long y = 0; y < 1 + 2 * a; y++) fiber_yield();
+          /* one byte now (the poller wakes whoever is registered), some yields, then the second byte */
+          { ssize_t w1 = write(sv[1], "a", 1); (void)w1; }
+          for (long y = 0; y < a; y++) fiber_yield();
+          { ssize_t w2 = write(sv[1], "b", 1); (void)w2; }
+          fiber_join(r1, &x1); fiber_join(r2, &x2);
+          if (x1 != (void*)(intptr_t)1 || x2 != (void*)(intptr_t)1) r = 80;
+          close(sv[0]); close(sv[1]);
+        }
         break;
       }
       case 27: { int n = 0; while (!atomic_load(&pflag[a]) && n++ < 3000) fiber_yield(); break; }   /* yield-polling loop */
